@@ -229,6 +229,8 @@ def conc_vocab(bits):
     v["fns"]["Color::Fixed"] = GA.f_ctor("ansi_term::Color::Fixed", "(AtFixed %s)", [U8], COLOUR)
     v["fns"]["Color::RGB"] = GA.f_ctor("ansi_term::Color::RGB", "(AtRGB %s %s %s)", [U8, U8, U8], COLOUR)
     v["fns"]["Style::new"] = GA.f_const("ansi_term::Style::new", "g_atm_new", STYLE)
+    for a in GA.LIBS["ansi_term"]["attrs"]:
+        v["method_paths"]["ansi_term::Style::" + a] = (STYLE[1], a)      # as a function pointer in a private table of the adapter
     return v
 
 
